@@ -525,8 +525,12 @@ func checkTier(cfg *propCfg, tier string, seed uint64) int {
 			}
 			continue
 		}
-		os.MkdirAll(filepath.Join(verifDir, "replays"), 0o755)
-		path := filepath.Join(verifDir, "replays", fmt.Sprintf("%s-%d-%d.json", cfg.ID, seed, ci.first.Run))
+		rdir := filepath.Join(verifDir, "replays")
+		if os.Getenv("VERIF_NO_EVIDENCE") != "" {
+			rdir = "/var/tmp/verif-try-replays"
+		}
+		os.MkdirAll(rdir, 0o755)
+		path := filepath.Join(rdir, fmt.Sprintf("%s-%d-%d.json", cfg.ID, seed, ci.first.Run))
 		b, _ := json.MarshalIndent(rp, "", " ")
 		os.WriteFile(path, b, 0o644)
 		ci.replay = path
@@ -546,7 +550,9 @@ func checkTier(cfg *propCfg, tier string, seed uint64) int {
 			exitCode = 2
 		}
 	}
-	agg.write(sc, cfg, tier, seed, time.Since(t0).Seconds(), buildS, runS, classes, unknown, knownSeen)
+	if os.Getenv("VERIF_NO_EVIDENCE") == "" {
+		agg.write(sc, cfg, tier, seed, time.Since(t0).Seconds(), buildS, runS, classes, unknown, knownSeen)
+	}
 	for _, l := range lines {
 		fmt.Println(l)
 	}
